@@ -249,9 +249,11 @@ class PropertyDescriptorRelation(PredicateClassRelation):
         """
         Get the outgoing relations from the target that have the same property descriptor type as this relation.
         """
+        # relations to instances that are garbage collected stay in the graph until the dead instances are removed
         relation_condition = (
             lambda relation: relation.property_descriptor_cls
             is self.property_descriptor_cls
+            and relation.target.instance is not None
         )
         yield from SymbolGraph().get_outgoing_relations_with_condition(
             self.target, relation_condition
@@ -264,9 +266,11 @@ class PropertyDescriptorRelation(PredicateClassRelation):
         """
         Get the incoming relations from the source that have the same property descriptor type as this relation.
         """
+        # relations from instances that are garbage collected stay in the graph until the dead instances are removed
         relation_condition = (
             lambda relation: relation.property_descriptor_cls
             is self.property_descriptor_cls
+            and relation.source.instance is not None
         )
         yield from SymbolGraph().get_incoming_relations_with_condition(
             self.source, relation_condition
